@@ -74,7 +74,11 @@ class C18(common.Spec):
                     break
                 try:
                     if etype == 'ev':
-                        ev.send(src, tag=tag, extra='x%d' % tag)
+                        if tag % 3 == 0:
+                            # an event that already carries an (unrelated) orig_source item
+                            ev.send(src, tag=tag, extra='x%d' % tag, orig_source='stale')
+                        else:
+                            ev.send(src, tag=tag, extra='x%d' % tag)
                     else:
                         rblocks[0].event(etype, tag=tag, source='someone')
                 except Exception as err:
@@ -111,10 +115,13 @@ class C18(common.Spec):
                     steps.append((sq, 0, ['recv', t, data.get('tag'), data.get('repeat'), et == 'ev',
                                           data.get('source')]))
                 data_ok = True
+                # the sender of each received event of the configured type, by tag
+                sender_of = {data.get('tag'): data.get('source') for _t, et, data, _sq in inputs[b.name] if et == 'ev'}
                 for t, et, data, sq in out_log:
                     rep = data.get('repeat')
                     steps.append((sq, 1, ['out', t, data.get('tag'), rep]))
                     if data.get('source') != b.name or 'orig_source' not in data \
+                            or data.get('orig_source') != sender_of.get(data.get('tag'), '?') \
                             or data.get('extra') != 'x%d' % data.get('tag') or et != 'ev':
                         data_ok = False
                 # order: by time; at one instant the order of arrival vs. copy is taken from the logs:
